@@ -12,6 +12,7 @@ values; `ridKey` is the provider's reservation-id label (any key other than the 
 import Karp.Proofs.Consolidate
 import Karp.Proofs.ConsolidateValidate
 import Karp.Proofs.ConsolidateSpec
+import Karp.Proofs.ConsolidateEmpty
 import Karp.Spec.Consolidation
 
 namespace Karp.C06
@@ -114,6 +115,38 @@ theorem fact_methods :
     Karp.Gen.C06Facts.emptinessComputeCalls = ["Validate"] ∧
     Karp.Gen.C06Facts.decisionCmps =
       ["len(c.Candidates) > 0", "len(c.Replacements) > 0", "len(c.Candidates) > 0", "len(c.Replacements) == 0"] := by decide
+
+/-- Emptiness releases THE VALIDATOR'S command: `ComputeCommands` keeps the command `Validate` returns (`validCmd`) and
+    that is what its last statement hands back; a validation error yields no command; only candidates that are empty go
+    into the command in the first place.  `EmptinessValidator.Validate` waits, re-derives the candidates and returns the
+    command WITH ITS CANDIDATES REPLACED by the validated ones; `validateCandidates` takes the current candidates
+    (`GetCandidates` under `Emptiness.ShouldDisrupt`, which asks `IsEmpty`), keeps those of the command (`mapCandidates`),
+    fails when none is left, then filters by nomination and budget (the model's `emptinessValidate`). -/
+theorem fact_emptiness_release :
+    Karp.Gen.C06Facts.emptinessValidateAssign = ["validCmd, err := e.validator.Validate(ctx, cmd, commandValidationDelay)"] ∧
+    Karp.Gen.C06Facts.emptinessComputeReturns = "return []Command{validCmd}, nil" ∧
+    Karp.Gen.C06Facts.emptinessComputeGuards =
+      ["e.IsConsolidated() => return []Command{}, nil",
+       "!candidate.IsEmpty() => continue",
+       "disruptionBudgetMapping[candidate.NodePool.Name] == 0 => continue",
+       "len(empty) == 0 => return []Command{}, nil",
+       "!constrainedByBudgets => (falls through)",
+       "err != nil => return []Command{}, err",
+       "IsValidationError(err) => return []Command{}, nil",
+       "end => return []Command{…}, nil"] := by decide
+
+theorem fact_emptiness_validator :
+    Karp.Gen.C06Facts.emptinessValidateSkeletonParams = ["ctx", "cmd", "validationPeriod"] ∧
+    Karp.Gen.C06Facts.emptinessValidateSkeleton =
+      ["if validationPeriod > 0", "(other statement)",
+       "validatedCandidates, err := e.validateCandidates(ctx, cmd.Candidates...)",
+       "if err != nil", "return Command{}, err",
+       "cmd.Candidates = validatedCandidates", "return cmd, nil"] ∧
+    Karp.Gen.C06Facts.emptinessValidateCandidatesCalls =
+      ["GetCandidates", "mapCandidates", "BuildDisruptionBudgetMapping", "IsNodeNominated"] ∧
+    Karp.Gen.C06Facts.emptinessValidateCandidatesCmps =
+      ["len(validatedCandidates) == 0", "disruptionBudgetMapping[cn.NodePool.Name] == 0", "len(valid) > 0"] ∧
+    Karp.Gen.C06Facts.emptinessShouldDisruptCalls = ["IsEmpty"] := by decide
 
 /-- the simulation: solve, truncate, then turn placements on uninitialized nodes into pod errors -/
 theorem fact_simulate :
@@ -496,6 +529,110 @@ theorem C06_empty_spec (infos : List (Karp.Spec.Consolidation.PodInfo)) :
         simp only
         omega
       rw [this] at hb; cases hb
+
+/-! ### Emptiness: the command that is released after the validation delay -/
+
+/-- **C06_empty_validated** — the Emptiness command that is RELEASED after the validation delay removes only nodes that
+    were in the computed command AND are still candidates after the wait (`current`: what `GetCandidates` returns under
+    `Emptiness.ShouldDisrupt`, i.e. nodes that are empty THEN) and are not nominated; it is never empty; and no NodePool
+    loses more nodes than its budget at that moment allows.  So a node that received a pod during the wait — and for that
+    reason is no longer among `current` — is not deleted, whatever happens to the other candidates of the command. -/
+theorem C06_empty_validated (poolOf : String → String) (nominated : String → Bool) (budgets : List (String × Nat))
+    (cmd current rel : List String) (h : emptinessValidate poolOf nominated budgets cmd current = some rel) :
+    rel ≠ [] ∧ (∀ n ∈ rel, n ∈ cmd ∧ n ∈ current ∧ nominated n = false) ∧
+    (∀ p, (rel.filter (fun n => poolOf n == p)).length ≤ (budgets.lookup p).getD 0) := by
+  obtain ⟨hne, hrel⟩ := emptinessValidate_some poolOf nominated budgets cmd current rel h
+  refine ⟨hne, ?_, ?_⟩
+  · intro n hn
+    rw [hrel] at hn
+    obtain ⟨hm, hnom⟩ := budgetFilter_mem poolOf nominated _ _ n hn
+    obtain ⟨hc, hp⟩ := (mapCandidates_mem cmd current n).mp hm
+    exact ⟨hp, hc, hnom⟩
+  · intro p
+    rw [hrel]
+    exact budgetFilter_budget poolOf nominated _ budgets p
+
+/-- … and `Emptiness.ComputeCommands` returns exactly that command, or none: nothing outside `cmd ∩ current` is ever
+    released -/
+theorem C06_empty_release_subset (poolOf : String → String) (nominated : String → Bool) (budgets : List (String × Nat))
+    (cmd current : List String) :
+    ∀ n ∈ emptinessRelease poolOf nominated budgets cmd current, n ∈ cmd ∧ n ∈ current := by
+  intro n hn
+  unfold emptinessRelease at hn
+  cases h : emptinessValidate poolOf nominated budgets cmd current with
+  | none => rw [h] at hn; simp at hn
+  | some rel =>
+    rw [h] at hn
+    have := (C06_empty_validated poolOf nominated budgets cmd current rel h).2.1 n (by simpa using hn)
+    exact ⟨this.1, this.2.1⟩
+
+/-- where neither a budget binds nor a node is nominated, validation is EXACT: every candidate of the command that is
+    still a candidate is released (a still-empty node is not dropped because another one received a pod) -/
+theorem C06_empty_validate_exact (poolOf : String → String) (nominated : String → Bool) (budgets : List (String × Nat))
+    (cmd current : List String)
+    (hb : ∀ p, ((mapCandidates cmd current).filter (fun n => !nominated n && poolOf n == p)).length ≤ (budgets.lookup p).getD 0) :
+    emptinessRelease poolOf nominated budgets cmd current = (mapCandidates cmd current).filter (fun n => !nominated n) := by
+  unfold emptinessRelease emptinessValidate
+  simp only
+  rw [budgetFilter_exact poolOf nominated _ budgets hb]
+  cases h1 : mapCandidates cmd current with
+  | nil => rfl
+  | cons a as =>
+    cases h2 : List.filter (fun n => !nominated n) (a :: as) with
+    | nil => rfl
+    | cons b bs => rfl
+
+/-- **C06_empty_at_release** — the property's third sentence AT RELEASE: if every node `GetCandidates` returns after the
+    wait is empty by `IsEmpty` at that moment (that is `Emptiness.ShouldDisrupt`; `pods n` = the eviction-cost inputs of the
+    reschedulable pods on `n` after the wait), then no reschedulable pod on a released node has a positive eviction cost. -/
+theorem C06_empty_at_release (poolOf : String → String) (nominated : String → Bool) (budgets : List (String × Nat))
+    (cmd current rel : List String) (pods : String → List PodCost)
+    (h : emptinessValidate poolOf nominated budgets cmd current = some rel)
+    (hcur : ∀ n ∈ current, isEmpty (pods n) = true) :
+    ∀ n ∈ rel, ∀ p ∈ pods n, ¬ (0 < (2 : Int) ^ 27 + p.delCost.getD 0 + 4 * p.prio.getD 0) := by
+  intro n hn
+  have := (C06_empty_validated poolOf nominated budgets cmd current rel h).2.1 n hn
+  exact (C06_empty (pods n)).mp (hcur n this.2.1)
+
+/-- **C06_empty_release_spec** — the model's released Emptiness command passes the SAME executable `empty` rule the driver
+    evaluates on the real command, on the cluster as it is at release (`s`: the scenario after the change), provided the
+    still-valid candidates are empty by `isEmpty` there (checked by the driver on what the real `GetCandidates` returns). -/
+theorem C06_empty_release_spec (s : Karp.Scn.Scenario) (infos : List Karp.Spec.Consolidation.PodInfo)
+    (poolOf : String → String) (nominated : String → Bool) (budgets : List (String × Nat)) (cmd current : List String)
+    (hcur : ∀ n ∈ current, ∀ nd, s.node? n = some nd →
+      isEmpty (((Karp.Spec.Consolidation.reschedulable infos nd).map (fun p => Karp.Spec.Consolidation.infoOf infos p.name)).map
+        (fun i => { delCost := i.delCost, prio := i.prio })) = true)
+    (c : Karp.Spec.Consolidation.Command) (hc : c.cands = emptinessRelease poolOf nominated budgets cmd current) :
+    Karp.Spec.Consolidation.emptyRule s infos c = none := by
+  unfold Karp.Spec.Consolidation.emptyRule
+  split
+  · rfl
+  · apply firstV_none
+    intro v hv
+    obtain ⟨nd, hnd, rfl⟩ := List.mem_map.mp hv
+    obtain ⟨n, hn, hsn⟩ := List.mem_filterMap.mp hnd
+    rw [hc] at hn
+    have hin := (C06_empty_release_subset poolOf nominated budgets cmd current n hn).2
+    have he := hcur n hin nd hsn
+    rw [C06_empty_spec] at he
+    have hnone : (Karp.Spec.Consolidation.reschedulable infos nd).find?
+        (fun p => Karp.Spec.Consolidation.evictionCostPositive (Karp.Spec.Consolidation.infoOf infos p.name)) = none := by
+      rw [List.find?_eq_none]
+      intro p hp
+      have := List.all_eq_true.mp he (Karp.Spec.Consolidation.infoOf infos p.name) (List.mem_map.mpr ⟨p, hp, rfl⟩)
+      simpa using this
+    rw [hnone]
+
+/-- non-vacuity: two empty candidates, `n2` receives a pod during the wait (it is no longer among the current candidates):
+    only `n1` is released; when both receive one, no command is released; a nominated node is dropped; a budget of one
+    lets one node through -/
+example : emptinessValidate (fun _ => "pool") (fun _ => false) [("pool", 5)] ["n1", "n2"] ["n3", "n1"] = some ["n1"] := by decide
+example : emptinessValidate (fun _ => "pool") (fun _ => false) [("pool", 5)] ["n1", "n2"] ["n3"] = none := by decide
+example : emptinessValidate (fun _ => "pool") (fun n => n == "n1") [("pool", 5)] ["n1", "n2"] ["n2", "n1"] = some ["n2"] := by decide
+example : emptinessValidate (fun _ => "pool") (fun _ => false) [("pool", 1)] ["n1", "n2"] ["n2", "n1"] = some ["n2"] := by decide
+example : emptinessRelease (fun _ => "pool") (fun _ => false) [] ["n1"] ["n1"] = [] := by decide
+/-- … and what the property forbids — releasing the command AS COMPUTED — differs from the model on that input -/
+example : emptinessRelease (fun _ => "pool") (fun _ => false) [("pool", 5)] ["n1", "n2"] ["n3", "n1"] ≠ ["n1", "n2"] := by decide
 
 /-! ## The model's decision meets the executable specification
 
